@@ -182,6 +182,8 @@ def step_diff(p, y, rep=None):
     return out
 
 
+INPLACE_OPS = ('iadd', 'isub', 'iadd_prefactor_other', 'iscale', 'iscale_prefactor', 'itranspose', 'iconj', 'imake_contiguous', 'idiv',
+               'iunary', 'setitem', 'iproject', 'isort_qdata')       # = c04_impl.INPLACE
 ALIAS_KEYS = ('shares', 'changed', 'side_effects', 'alias_err', 'ext_changed', 'ext_shares')
 
 
@@ -389,9 +391,22 @@ def compare_programs(ctx, stream, cases, out, nontrivial=None):
         first = None
         more = []
         rep = doc_alias_classes(c['steps'])
+        tainted = set(c.get('unspecified', []))
         for si, (st, a, b) in enumerate(zip(c['steps'], p['steps'], y['steps'])):
             k = st['op'] + ('!' if 'error' in a else '')
             opstat[k] = opstat.get(k, 0) + 1
+            # registers in an unspecified state: a documented shallow copy (Array.copy(deep=False), sort_legcharge, unary_blockwise)
+            # whose partner was written to in place afterwards ("in-place operations on one might or might not affect the other").
+            # The state propagates to everything computed from such a register; these are not compared (register index = step index).
+            opnd = [st[r] for r in ('a', 'b') if isinstance(st.get(r), int)]
+            if any(o in tainted for o in opnd):
+                tainted.add(si)
+                if st['op'] in INPLACE_OPS:
+                    tainted.add(st['a'])
+                continue
+            if st['op'] in INPLACE_OPS and isinstance(st.get('a'), int):
+                x = st['a']
+                tainted.update(r for r in range(si) if r != x and rep[r] == rep[x])
             d = step_diff(a, b, rep)
             if d == ['shares'] and first is None:
                 # same results, but different tensors share memory: keep looking for the step where this becomes a
@@ -410,7 +425,7 @@ def compare_programs(ctx, stream, cases, out, nontrivial=None):
         if first is None and len(p['steps']) == len(y['steps']):
             # registers named in c['unspecified'] are shallow copies whose partner was written to in place AFTER the copy: their state
             # is documented as unspecified (Array.copy), only the receiver of the write is compared
-            uns = set(c.get('unspecified', [])) | {m[0] for m in more}
+            uns = tainted | {m[0] for m in more}
             pf = [None if i in uns else x for i, x in enumerate(p['final'])]
             yf = [None if i in uns else x for i, x in enumerate(y['final'])]
             fd = [] if pf == yf else obs_diff(pf, yf, 'final')
